@@ -195,7 +195,7 @@ namespace avel {
         typename std::enable_if<N < mask16x32f::width, int>::type dummy_variable = 0;
 
         auto mask = b << N;
-        return mask16x32f{__mmask16((decay(m) & ~mask) | mask)};
+        return mask16x32f{__mmask16((decay(m) & ~(decltype(mask)(1) << N)) | mask)};
     }
 
 
